@@ -3,8 +3,8 @@
 From Coq Require Import List NArith ZArith Bool Arith Lia Permutation.
 From Common Require Import Bytes Outcome.
 From Gen Require Import Consts C14.
-From C14 Require Import Model Proofs_codecs Proofs_post Proofs_name1 Proofs_name2 Proofs_name3
-     Proofs_name4 Proofs_lang.
+From C14 Require Import Model ModelTags Proofs_codecs Proofs_post Proofs_name1 Proofs_name2
+     Proofs_name3 Proofs_name4 Proofs_lang Proofs_tags.
 Import ListNotations.
 Local Open Scope N_scope.
 
@@ -152,3 +152,27 @@ Proof.
   repeat split; auto using apple_table_ok, ms_table_ok.
 Qed.
 Print Assumptions langid_tables_injective.
+
+(* ------------------------------------------------------------------ *)
+(* OpenType script/language tags <-> BCP 47.  golang.org/x/text/language is
+   external; its assumed behaviour [xtext_spec] is a hypothesis (a tag whose
+   part before "-x-" has no singleton x and whose private-use subtags are 1..8
+   alphanumerics parses, and Extension('x') returns the lower-cased private-use
+   part).  Under it, for every script of gtab.scriptBcp47 and every language
+   of gtab.langBcp47 (or the default language system ""), the tag built by
+   otfToBCP47 is mapped back by bcp47ToOtf to exactly the script and language
+   it came from.  The hypothesis is satisfiable (xtext_ref), and the Go oracle
+   observes it on every pair of the tables. *)
+Theorem otf_tag_roundtrip :
+  forall xtext, xtext_spec xtext ->
+  forall script lang,
+    In script (map fst gtab_scriptBcp47) ->
+    lang = [] \/ In lang (map fst gtab_langBcp47) ->
+    exists p ext, M_otf_tag_string script lang = Some p /\
+                  xtext (full_tag p) = Some ext /\ M_from_ext ext = Some (script, lang).
+Proof. intros. now apply otf_tag_roundtrip_lemma. Qed.
+Print Assumptions otf_tag_roundtrip.
+
+Theorem xtext_spec_satisfiable : xtext_spec xtext_ref.
+Proof. exact xtext_ref_meets_spec. Qed.
+Print Assumptions xtext_spec_satisfiable.
